@@ -344,3 +344,86 @@ def twin_patterns(g: Gen) -> list[tuple[str, object]]:
         out.append(("twin:same-object", X.Multiply(a, a, b)))
         out.append(("twin:nested", X.Logarithm(X.Add(X.NthPower(clone(u), 2), X.NthPower(clone(u), 2), X.Constant(1.0)))))
     return out
+
+
+# ----------------------------------------------------------------------------- rich shapes
+
+def rich_shapes(rng: random.Random, count: int, classes=None) -> list[tuple[str, object]]:
+    """depth-2/3 trees over every constructor whose children are *wide*: sums and products of 1-4
+    items mixing constants, variables and unary nodes that share one base / one n with the root —
+    the shapes a (new) rewrite rule matches only partly: a rule for `f(c * g(u))` meets
+    `f(c * g(u) * v)`, a rule for a binary node meets its n-ary cousin, and so on"""
+    out = []
+    names = ["x", "y", "z"]
+    roots = classes or ALL
+    for _ in range(count):
+        b = rng.choice([math.e, math.e, 2, 10, 0.5, 3.0])
+        n = rng.choice([1, 2, 2, 3, 4, 5, 6])
+        same = lambda: b if rng.random() < 0.75 else rng.choice([math.e, 2, 10, 0.5])  # noqa: E731
+        samen = lambda: n if rng.random() < 0.6 else rng.choice([1, 2, 3, 4, 6])  # noqa: E731
+
+        def leaf():
+            if rng.random() < 0.55:
+                return X.Variable(rng.choice(names[: rng.randint(1, 3)]))
+            return X.Constant(rng.choice([0, 1, -1, 2, 3, 0.5, -2, 2.0, 1.5, -0.5]))
+
+        def unary(u):
+            k = rng.randrange(9)
+            if k == 0:
+                return X.Negation(u)
+            if k == 1:
+                return X.Reciprocal(u)
+            if k == 2:
+                return X.NthPower(u, samen())
+            if k == 3:
+                return X.NthRoot(u, samen())
+            if k == 4:
+                return X.Exponential(u, base=same())
+            if k == 5:
+                return X.Logarithm(u, base=same())
+            if k == 6:
+                return X.Sine(u)
+            if k == 7:
+                return X.Cosine(u)
+            return X.Logarithm(u, base=same())
+
+        def binary(u, v):
+            return rng.choice([X.Minus, X.Divide, X.Power])(u, v)
+
+        def item():
+            r = rng.random()
+            if r < 0.4:
+                return leaf()
+            if r < 0.85:
+                return unary(leaf())
+            return binary(leaf(), leaf())
+
+        def nary():
+            op = rng.choice([X.Add, X.Multiply])
+            return op(*[item() for _ in range(rng.randint(1, 4))])
+
+        def child():
+            r = rng.random()
+            if r < 0.15:
+                return leaf()
+            if r < 0.4:
+                return unary(item())
+            if r < 0.85:
+                return nary()
+            return binary(item(), item())
+
+        root = rng.choice(roots)
+        if root in ("Constant", "Variable"):
+            root = "Exponential"
+        if root in ("Add", "Multiply"):
+            e = getattr(X, root)(*[child() for _ in range(rng.randint(2, 4))])
+        elif root in ("Minus", "Divide", "Power"):
+            e = getattr(X, root)(child(), child())
+        elif root in ("NthPower", "NthRoot"):
+            e = getattr(X, root)(child(), n)
+        elif root in ("Exponential", "Logarithm"):
+            e = getattr(X, root)(child(), base=b)
+        else:
+            e = getattr(X, root)(child())
+        out.append(("shape:" + root, e))
+    return out
